@@ -25,6 +25,10 @@ Expression nodes (tuples, see gen/expr_gen.py for the generator):
     ("sel", arg, ((key, e),...), default|None)      select_with ; key = value of arg's type
     ("anyall", fn, (e,...))  ("anyvec", fn, x)  ("tobool", x)
     ("aidx", arr, i)  ("aidxrt", arr, e)
+    ("multi", x, (part,...))      multi-part subscript x[3, 1:0]; part = ("i", k) | ("s", hi, lo); first part = msbs
+    ("src", kind, x)              operand source (value and type of x): kind in always (t = cohdl.always(x)),
+                                  alwaysblock (with cohdl.always: t = x), localsig (t = Signal[T](x)),
+                                  localvar (t = Variable[T](x)), fn (return value of an inlined function)
     ("conv", form, dst_type, x)   conversion of x to dst_type by assignment / construction; form in
                                   assign (port <<= x) signal (Signal[D](x)) variable (Variable[D](x))
                                   temporary (Temporary[D](x)) varassign (v = Variable[D](); v @= x)
@@ -314,6 +318,26 @@ def typeof(node):
         if not is_vec(typeof(node[2])):
             raise IllTyped("anyvec")
         return BOOL
+    if k == "src":
+        t = typeof(node[2])
+        if is_lit(node[2]) or t[0] in ("arr", "enum") or t == INT:
+            raise IllTyped("src")
+        return t
+    if k == "multi":
+        t = typeof(node[1])
+        if not is_vec(t) or len(node[2]) < 2:
+            raise IllTyped("multi")
+        w = 0
+        for part in node[2]:
+            if part[0] == "i":
+                if not (0 <= part[1] < t[1]):
+                    raise IllTyped("multi index")
+                w += 1
+            else:
+                if not (0 <= part[2] <= part[1] < t[1]):
+                    raise IllTyped("multi slice")
+                w += part[1] - part[2] + 1
+        return bv(w)
     if k == "conv":
         src, dst = typeof(node[3]), node[2]
         if not convertible(src, dst) or is_lit(node[3]):
@@ -547,6 +571,20 @@ def evaluate(node, env):
         if v is OPEN:
             return OPEN
         return (v != 0) if node[1] == "any" else (v == mask(t[1]))
+    if k == "src":
+        return evaluate(node[2], env)
+    if k == "multi":
+        v = evaluate(node[1], env)
+        if v is OPEN:
+            return OPEN
+        r = 0
+        for part in node[2]:
+            if part[0] == "i":
+                r = (r << 1) | ((v >> part[1]) & 1)
+            else:
+                wpart = part[1] - part[2] + 1
+                r = (r << wpart) | ((v >> part[2]) & mask(wpart))
+        return r
     if k == "conv":
         src, dst = typeof(node[3]), node[2]
         v = evaluate(node[3], env)
